@@ -818,19 +818,19 @@ def convolve_templates(
     nbins = len(data)
     ntemps = len(temp_bank)
     convs = np.empty((ntemps, nbins), dtype=data.dtype)
-    data_pad = circular_pad_goodsize(data)
-    data_fft = np.fft.rfft(data_pad)
+    # The correlation is circular with the period of the data: transforming a
+    # longer (wrapped) copy would count the head of the data twice
+    data_fft = np.fft.rfft(data)
     for itemp in range(ntemps):
         temp_kernel = temp_bank[itemp]
-        temp_pad = np.zeros_like(data_pad)
+        temp_pad = np.zeros_like(data)
         temp_pad[: len(temp_kernel)] = temp_kernel
         # Align the reference bin to the index 0
         temp_pad = np.roll(temp_pad, -ref_bin[itemp])
         # Time reverse the template (for convolution)
         temp_pad = np.roll(temp_pad[::-1], 1)
         temp_norm = normalize_template(temp_pad)
-        conv = np.fft.irfft(data_fft * np.fft.rfft(temp_norm), len(data_pad))
-        convs[itemp, :] = conv[:nbins]
+        convs[itemp, :] = np.fft.irfft(data_fft * np.fft.rfft(temp_norm), nbins)
     return convs
 
 
